@@ -51,6 +51,7 @@ pub struct Check {
     samples: Mutex<Vec<Value>>,
     viols: Mutex<BTreeMap<String, Violation>>,
     viol_total: AtomicU64,
+    per_class: Mutex<BTreeMap<String, u64>>,
     extra: Mutex<Map<String, Value>>,
     assumptions: Mutex<Vec<String>>,
     pub max_samples: usize,
@@ -104,6 +105,7 @@ impl Check {
             samples: Mutex::new(vec![]),
             viols: Mutex::new(BTreeMap::new()),
             viol_total: AtomicU64::new(0),
+            per_class: Mutex::new(BTreeMap::new()),
             extra: Mutex::new(Map::new()),
             assumptions: Mutex::new(vec![]),
             max_samples: 8,
@@ -143,10 +145,18 @@ impl Check {
     }
     pub fn violation(&self, signature: String, what: String, case: Value) {
         self.viol_total.fetch_add(1, Ordering::Relaxed);
+        let class: String = signature.split_whitespace().take(4).collect::<Vec<_>>().join(" ");
         let mut v = self.viols.lock().unwrap();
         if let Some(e) = v.get_mut(&signature) {
             e.count += 1;
-        } else if v.len() < 5000 {
+            return;
+        }
+        // keep at most 100 signatures per class (first four words) and 5000 overall, so that one
+        // prolific defect cannot crowd out a different one
+        let mut pc = self.per_class.lock().unwrap();
+        let n = pc.entry(class).or_insert(0);
+        if *n < 100 && v.len() < 5000 {
+            *n += 1;
             v.insert(signature.clone(), Violation { signature, what, case, count: 1 });
         }
     }
@@ -203,6 +213,18 @@ impl Check {
             lines.push(format!("  what: {} [{}] ({} cases)", v.what, sig, v.count));
             printed += 1;
         }
+        if !viols.is_empty() {
+            // histogram of violation classes (first four words of the signature), for triage
+            let mut classes: BTreeMap<String, u64> = BTreeMap::new();
+            for (sig, v) in &viols {
+                let c: Vec<&str> = sig.split_whitespace().take(4).collect();
+                *classes.entry(c.join(" ")).or_insert(0) += v.count;
+            }
+            for (c, n) in classes.iter().take(40) {
+                eprintln!("  class: {c}  x{n}");
+            }
+        }
+        let n_unknown = if n_unknown > 0 { n_unknown.max(self.viol_total.load(Ordering::Relaxed).saturating_sub(n_known)) } else { 0 };
         let wall = self.start.elapsed().as_secs_f64();
         let mut cov = self.extra.into_inner().unwrap();
         let evals = self.evals.load(Ordering::Relaxed);
